@@ -1,8 +1,13 @@
 """C16 - scope analysis agrees with Python's own symbol table."""
 from pyvc import native, frontend
+from pyvc.contract import verify_all
+from contracts import k_scope
 
 
 def run(rep, tier, seed):
+    # which children of a nested def / class / lambda / comprehension the scope walk enters (decorators, defaults,
+    # annotations, bases, first iterable - not the body, not the parameters) and in what order: the stack builders
+    verify_all(rep, k_scope.specs('C16'))
     # finite obligation: the complete list of name-binding constructs of the language reference, one minimal function
     # each; the bound name must be classified as CPython's compiler classifies it (symtable is the specification)
     class _S:
